@@ -1,5 +1,6 @@
 // C15 driver: C terminal automaton (vterm.c + readline.h + sline.h), its C++ twin, and the sline API itself.
 #include "common/vlog.h"
+#include <igris/defs/vt100.h>
 #include <igris/shell/vterm.h>
 #include <igris/container/sline.h>
 using namespace vlog;
@@ -48,6 +49,8 @@ int main(int argc, char **argv) {
         if (op == "Key") { int c = num(t[1]); out.clear(); execs.clear(); nuls.clear(); sig = 0;
             if (kind == "c") vterm_automate_newdata(&V, (int16_t)c); else xx_key(c);
             Ev e("Key"); e.i("k", c); tail(e); e.end(); return; }
+        if (op == "VtLeft") { long n = num(t[1]); unsigned char w[16 + 2 * G]; memset(w, 0xA5, sizeof w); int ret = vt100_left((char *)w + G, (int)n); size_t len = strnlen((char *)w + G, 16);
+            Ev e("VtLeft"); e.i("n", n).i("ret", ret).bytes("out", w + G, len < 16 ? len + 1 : 16).bytes("gl", w, G).bytes("gr", w + G + 16, G); e.end(); return; }
         // sline API
         bool x = kind == "slxx"; long ret = 0; Ev e(op.c_str());
         if (op == "SlPut") { int c = num(t[1]); if (x) { size_t b = XSL->current_size(); XSL->newdata((char)c); ret = XSL->current_size() - b; } else ret = sline_putchar(&SL, (char)c); e.i("c", c); }
